@@ -41,7 +41,7 @@ import (
 // generated case, so every case is deterministic and replayable.
 
 type c38sStep struct {
-	K   string `json:"k"`             // block | check
+	K   string `json:"k"`             // block | check | restart (ledger closed and reopened on the same directory: node restart, caches cold)
 	Txs []int  `json:"txs,omitempty"` // block: transaction ids
 	Tx  int    `json:"tx,omitempty"`  // check: transaction id asked about
 	At  string `json:"at,omitempty"`  // check: when a block is committed: none | before | lookup (right after IsContainTransaction returned) | height (right after GetCurrentBlockHeight returned)
@@ -56,8 +56,11 @@ type c38sCase struct {
 func genC38s(t *rapid.T) c38sCase {
 	c := c38sCase{Cap: []int{20, 20, 1, 2, 3, 5, 8, 20}[fairInt(t, 8, "cap")]}
 	c.Steps = rapid.SliceOfN(rapid.Custom(func(t *rapid.T) c38sStep {
-		if fairInt(t, 4, "kind") == 0 {
+		switch fairInt(t, 8, "kind") {
+		case 0, 1:
 			return c38sStep{K: "block", Txs: rapid.SliceOfN(rapid.IntRange(0, c38LedgerIDs-1), 0, 3).Draw(t, "txs")}
+		case 2:
+			return c38sStep{K: "restart"}
 		}
 		return c38sStep{K: "check", Tx: rapid.IntRange(0, c38LedgerIDs-1).Draw(t, "tx"),
 			At:  []string{"none", "before", "lookup", "lookup", "height", "height", "lookup", "none"}[fairInt(t, 8, "at")],
@@ -217,7 +220,26 @@ func runC38s(ctx *ev.Ctx, c c38sCase) {
 	}
 
 	midSelf := false
+	restarted, afterRestart := false, false
+	restartHeight := uint32(0) // blocks up to here were committed before the last restart
 	for i, st := range c.Steps {
+		if st.K == "restart" {
+			// node restart: the ledger is closed and opened again on the same directory (block-store
+			// caches start cold); it becomes ledger.DefLedger again, behind a new pass-through wrapper
+			before := real.GetCurrentBlockHeight()
+			if err := ch.Restart(); err != nil {
+				ctx.Failf("harness: step %d: restart of the ledger failed: %v", i, err)
+			}
+			real = ch.Store
+			hooked = installHookedStore(ch.Ledger)
+			ledger.DefLedger = ch.Ledger
+			if h := real.GetCurrentBlockHeight(); h != before {
+				ctx.Failf("harness: step %d: ledger height %d after restart, %d before", i, h, before)
+			}
+			restarted = true
+			restartHeight = before
+			continue
+		}
 		if st.K == "block" {
 			var list []*types.Transaction
 			for _, id := range st.Txs {
@@ -256,6 +278,9 @@ func runC38s(ctx *ev.Ctx, c c38sCase) {
 			ctx.Failf("harness: %s: %v", what, commitErr)
 		}
 		h0, wasIn := inclHeight[tx.Hash()]
+		if wasIn && restarted && h0 <= restartHeight {
+			afterRestart = true
+		}
 		startHeight := real.GetCurrentBlockHeight()
 		l0, g0 := atomic.LoadInt32(&hooked.lookups), atomic.LoadInt32(&hooked.heights)
 		res, err := pid.RequestFuture(&vatypes.CheckTx{WorkerId: uint8(i), Tx: tx}, 60*time.Second).Result()
@@ -318,7 +343,10 @@ func runC38s(ctx *ev.Ctx, c c38sCase) {
 			ctx.Label("commit-of-checked-tx-during-request:" + st.At + "->" + map[bool]string{true: "pass", false: "dup"}[r.ErrCode == perr.ErrNoError])
 		}
 	}
-	if midSelf {
+	if afterRestart {
+		ctx.Label("committed-tx-asked-after-restart")
+	}
+	if midSelf || afterRestart {
 		ctx.NonTrivial()
 	}
 }
@@ -328,11 +356,11 @@ func TestC38Stateful(t *testing.T) {
 		"that lets the generated case commit real blocks between the validator's ledger reads")
 	ev.Drive(t, "C38",
 		"schedule unit: real ledger (4 validators) as DefLedger behind a pass-through store wrapper, real stateful-validator actor, real IncrementValidator (capacity 1..8 or 20) fed "+
-			"with every committed block; history of 1.."+fmt.Sprint(ev.Scale(8, 14))+" steps: commit a block of 0..3 transactions, or CheckTx(tx) together with a schedule choice - a block "+
+			"with every committed block; history of 1.."+fmt.Sprint(ev.Scale(8, 14))+" steps: commit a block of 0..3 transactions, restart the ledger (close + reopen on the same directory, caches cold), or CheckTx(tx) together with a schedule choice - a block "+
 			"holding the checked tx / a fresh tx / both / nothing is committed before the request, right after the validator's IsContainTransaction returned, right after its "+
 			"GetCurrentBlockHeight returned, or not at all. Judged per response: a tx in the ledger before the request fails; a pass at height H implies the tx is in no block <= H (asked "+
 			"from the real store afterwards) and, if it is in a later block, IncrementValidator.Verify(tx, H+1) refuses it; a duplicate verdict implies the tx is in the ledger; H lies "+
-			"between the ledger heights at request and response. non-trivial: a block holding the checked (not yet committed) tx was committed while the request was being served; "+
+			"between the ledger heights at request and response. non-trivial: a block holding the checked (not yet committed) tx was committed while the request was being served, or a committed tx was asked about after a restart; "+
 			"distinct by JSON of the case",
 		genC38s, runC38s)
 }
